@@ -172,3 +172,15 @@ Theorem C05_graphic_select_columns :
     GraphicClosure.GraphicP m n M -> GraphicClosure.GraphicP m (length cs) (submat M (iota 0 m) cs).
 Proof. exact GraphicClosure.GraphicP_cols. Qed.
 Print Assumptions C05_graphic_select_columns.
+
+(* ---------- the judge accepts EXACTLY the records that satisfy its specification (JudgeComplete3.v): completeness besides soundness,
+   a record of a correct answer is never rejected ---------- *)
+From Cmr Require JudgeComplete3.
+Theorem C05_judge_cligraphout_accepts_exactly_the_specification :
+    forall (rec : list Z) (signed co : bool) (infmt : Z) (inb : list Z) (rc : Z) 
+    (hasout : bool) (outb rest : list Z),
+    CliProofs.cligraphout_input rec = Some (signed, co, infmt, inb, rc, hasout, outb, rest) ->
+    CliModel.judge_cligraphout rec = 0%Z <->
+    JudgeComplete3.cligraphout_spec signed co infmt inb rc hasout outb.
+Proof. exact JudgeComplete3.judge_cligraphout_iff. Qed.
+Print Assumptions C05_judge_cligraphout_accepts_exactly_the_specification.
